@@ -28,6 +28,9 @@ func declaredTooBig(b []byte) bool {
 }
 
 func (c *Ctx) tryBlob(stream string, blob []byte, model bool, reqs *[]string, pends *[]func(ans string)) {
+	if c.Aborted {
+		return
+	}
 	if declaredTooBig(blob) {
 		c.Ev.Dist("skipped:declared>4MiB")
 		return
@@ -41,6 +44,7 @@ func (c *Ctx) tryBlob(stream string, blob []byte, model bool, reqs *[]string, pe
 	c.Ev.Count(stream, blob, true)
 	if !ok {
 		c.Violate("hang", "Deserialize did not return within 120 s", "deser-hang", info)
+		c.Aborted = true
 		return
 	}
 	if pan != "" {
@@ -54,6 +58,7 @@ func (c *Ctx) tryBlob(stream string, blob []byte, model bool, reqs *[]string, pe
 		okr := withDeadline(120*time.Second, func() { rp = exerciseReads(pj, 80, len(pj.Tape) < 20000) })
 		if !okr {
 			c.Violate("hang", "a read method did not return within 120 s on a deserialized result", "deser-read-hang", info)
+			c.Aborted = true
 			return
 		}
 		if rp != "" {
@@ -94,6 +99,9 @@ func (c *Ctx) tryBlob(stream string, blob []byte, model bool, reqs *[]string, pe
 // an unrecoverable failure (fatal stack overflow) becomes a reported violation
 // instead of killing the harness.
 func (c *Ctx) probeInChild(stream string, blob []byte) bool {
+	if c.Aborted {
+		return false
+	}
 	exe, err := os.Executable()
 	if err != nil {
 		return true
@@ -110,6 +118,7 @@ func (c *Ctx) probeInChild(stream string, blob []byte) bool {
 	case <-time.After(180 * time.Second):
 		cmd.Process.Kill()
 		c.Violate("hang", "Deserialize + read API did not finish within 180 s (child process)", "deser-child-hang", info)
+		c.Aborted = true
 		return false
 	}
 	if err != nil {
